@@ -198,6 +198,7 @@ class C16(Check):
         self.grammar_stream(ctx, im)
         self.malformed_stream(ctx, im)
         self.list_stream(ctx, im)
+        self.rule_stream(ctx, im)
         self.boundary(ctx, im)
 
     # -- the model's isspace table against CPython ------------------------------------------------
@@ -606,6 +607,64 @@ class C16(Check):
                 ctx.violate('length / selectorText / iteration of a selector list agree', cut(w, k),
                             {'length': sl.length, 'text': sl.selectorText, 'members': after})
 
+    # -- a style rule inside a sheet: CSSStyleRule.selectorText (cssstylerule.py:218-239) -------------------
+    def rule_stream(self, ctx, im):
+        """implementation only: setting the selector text of a rule that is attached to a sheet gives the members
+        a free-standing Selector gives (same text, same specificity), in order, all or nothing"""
+        rng = ctx.sub_rng('rules')
+        for _ in range(ctx.n(250, 5000)):
+            ns = rng.choice([e for e in g.NSENVS if len(set(e.values())) == len(e)])
+            rule, detached = self.new_rules(im, ns)
+            for step in range(rng.choice([1, 2, 3, 4])):
+                text, members = self.gen_list_text(rng, ns, im)
+                if not self.rule_step(ctx, im, ns, rule, detached, text, members):
+                    break
+
+    def new_rules(self, im, ns):
+        css = im.css
+        sheet = css.CSSStyleSheet()
+        for p, u in sorted(ns.items(), key=lambda kv: kv[0] == ''):
+            sheet.add(css.CSSNamespaceRule(namespaceURI=u, prefix=p))
+        rule = css.CSSStyleRule(selectorText='zz', style='left: 0')
+        sheet.add(rule)
+        rule.selectorText = 'zz'            # resolved against the sheet's namespaces from the start
+        detached = css.CSSStyleRule(selectorText=('zz', dict(ns)), style='left: 0')
+        self._keep = sheet                  # the rule refers to its sheet weakly
+        return rule, detached
+
+    def rule_step(self, ctx, im, ns, rule, detached, text, members):
+        before = [s.selectorText for s in rule.selectorList]
+        w = {'ns': ns, 'text': text, 'members': members, 'rule_before': before, 'stream': 'rule'}
+        try:
+            with time_limit(10):
+                rule.selectorText = text
+                detached.selectorText = (text, dict(ns))
+        except Exception as e:          # noqa: BLE001
+            ctx.violate('CSSStyleRule.selectorText does not raise in logging mode', w, repr(e))
+            return False
+        after = [s.selectorText for s in rule.selectorList]
+        singles = []
+        for t in members:
+            r, s1 = (im.sel(im.tokenize(t), ns) if t is not None else ('REJECT', None))
+            singles.append((s1.selectorText, s1.specificity) if r.startswith('OK') else None)
+        ctx.case(key=('rule', text, tuple(sorted(ns.items()))), nontrivial=len(members) > 1 or None in singles,
+                 kind='rule-selectorText', sample={'text': text, 'rule': after})
+        if any(x is None for x in singles):
+            if after != before:
+                ctx.violate('a rule keeps its selector list when the new text has an invalid member', w,
+                            {'before': before, 'after': after})
+        else:
+            got = [(s.selectorText, s.specificity) for s in rule.selectorList]
+            if got != singles:
+                ctx.violate('the members of a rule in a sheet are the selectors parsed alone: same text, same '
+                            'specificity, same order', w, {'alone': singles, 'in_rule': got})
+        if [s.selectorText for s in detached.selectorList] != after:
+            ctx.violate('a rule attached to a sheet and a detached rule with the same namespaces agree', w,
+                        {'attached': after, 'detached': [s.selectorText for s in detached.selectorList]})
+        if rule.selectorText != ', '.join(after) or (after and not rule.cssText.startswith(rule.selectorText)):
+            ctx.violate('rule.selectorText / cssText show the list', w, {'text': rule.selectorText, 'css': rule.cssText})
+        return True
+
     # -- boundary: exhaustive small cases ------------------------------------------------------------
     def boundary(self, ctx, im):
         """every pair / triple of a small fragment alphabet, tokenized: all short selectors"""
@@ -674,7 +733,14 @@ class C16(Check):
                 ws.append(b['input'])
         done = False
         for w in ws:
-            if 'ops' in w:
+            if w.get('stream') == 'rule':
+                rule, detached = self.new_rules(im, w['ns'])
+                if w.get('rule_before') not in (None, ['zz'], ['|zz']):
+                    rule.selectorText = ', '.join(w['rule_before'])
+                    detached.selectorText = (', '.join(w['rule_before']), dict(w['ns']))
+                self.rule_step(ctx, im, w['ns'], rule, detached, w['text'], w['members'])
+                done = True
+            elif 'ops' in w:
                 ops = []
                 for op in w['ops']:
                     if op[0] in ('set', 'app'):
